@@ -214,6 +214,26 @@ inline Program generate(vf::Rng& r, const GenOptions& o) {
     k.valueStyle = o.hostileValues ? (r.chance(1, 2) ? 2 : (unsigned)r.below(2)) : (unsigned)r.below(2);
     if (o.largeValues && r.chance(1, 40)) k.valueStyle = 3;
   }
+  // A leaf that one key reads directly (and reports as discovered) is often also a declared input of a sibling: the parent of the
+  // discovering key requests the leaf itself, so that the leaf's task can be in flight for another consumer when it is discovered.
+  if (o.discovered) for (size_t i = nInputs; i < n; ++i) {
+    const KeyDef& k = p.keys[i];
+    if (!k.discoverCount || k.leafCandidates.empty() || !r.chance(1, 2)) continue;
+    for (size_t q = nInputs; q < n; ++q) {
+      KeyDef& par = p.keys[q];
+      if (q == i) continue;
+      bool requestsK = false; for (auto& rq : par.statics) if (rq.key == (int)i && rq.mode == Normal) requestsK = true;
+      if (!requestsK) continue;
+      int leaf = r.pick(k.leafCandidates);
+      bool has = false; for (auto& rq : par.statics) if (rq.key == leaf) has = true;
+      for (auto& d : par.dyns) if (d.req.key == leaf) has = true;
+      if (has || leaf == (int)q) continue;
+      size_t oldStatics = par.statics.size();
+      par.statics.push_back({leaf, Normal});
+      for (auto& d : par.dyns) if ((size_t)d.onInput >= oldStatics) d.onInput += 1;   // dynamic request ids follow the static ones
+      break;
+    }
+  }
   return p;
 }
 
